@@ -494,7 +494,7 @@ pub fn op_strategy(p: &Profile, kind: Kind, u: u32, dom: u8) -> BoxedStrategy<Op
             "reserve" => {
                 let kinds = prop_oneof![Just(ResKind::Reserve), Just(ResKind::ReserveExact), Just(ResKind::TryReserve), Just(ResKind::TryReserveExact)];
                 let try_kinds = prop_oneof![Just(ResKind::TryReserve), Just(ResKind::TryReserveExact)];
-                let small = prop_oneof![6 => Just(0u16), 12 => 1u16..65, 4 => 128u16..4097, 1 => 8193u16..20000].prop_map(Amount::Small);
+                let small = prop_oneof![6 => Just(0u32), 12 => 1u32..65, 4 => 128u32..4097, 1 => 8193u32..20000].prop_map(Amount::Small);
                 let mut alts: Vec<(u32, BoxedStrategy<Op>)> = vec![(8, (kinds.clone(), small).prop_map(|(how, amt)| Op::Reserve { how, amt }).boxed())];
                 if p.try_huge {
                     alts.push((3, (try_kinds, (0u8..6).prop_map(Amount::Huge)).prop_map(|(how, amt)| Op::Reserve { how, amt }).boxed()));
@@ -598,11 +598,11 @@ pub fn ctor_strategy(p: &Profile, u: u32, dom: u8) -> BoxedStrategy<Ctor> {
     let sizes: Vec<(u32, BoxedStrategy<(usize, usize)>)> = classes.into_iter().map(|(w, lo, hi)| (w, Just((lo, hi)).boxed())).collect();
     let how = prop_oneof![
         4 => Just(CtorKind::New),
-        1 => prop_oneof![20 => 0u16..300, 1 => 8193u16..20000].prop_map(CtorKind::WithCapacity),
+        1 => prop_oneof![20 => 0u32..300, 1 => 8193u32..20000].prop_map(CtorKind::WithCapacity),
         1 => Just(CtorKind::WithHasher),
-        1 => (0u16..300).prop_map(CtorKind::WithCapacityAndHasher),
+        1 => (0u32..300).prop_map(CtorKind::WithCapacityAndHasher),
         1 => Just(CtorKind::WithDefaultHasher),
-        1 => (0u16..300).prop_map(CtorKind::WithCapacityAndDefaultHasher),
+        1 => (0u32..300).prop_map(CtorKind::WithCapacityAndDefaultHasher),
         1 => Just(CtorKind::Default),
         3 => Just(CtorKind::FromVec),
         3 => Just(CtorKind::FromIter),
